@@ -38,7 +38,7 @@ FAMILY = [
 ]
 HEAVY = ('loop_sort', 'loop_array', 'loop_if', 'loop_obj', 'loop_set', 'inline_if', 'svar', 'index_path', 'array_index')
 def B(n):
-    return {'Next': n + 2, 'h_render|build|leaves_intact|L|E|R': n + 4, 'Copy': 40, 'IsEqual': 10, 'Dispose': 4, 'parse|parse.*|checkLoopVariable|getOperation|isExpression|parseExpressions|parseValue': n + 2,
+    return {'Next': n + 2, 'h_render|build|leaves_intact|L|E|R|leaf_less': n + 24, 'Copy': 40, 'IsEqual': 10, 'Dispose': 4, 'parse|parse.*|checkLoopVariable|getOperation|isExpression|parseExpressions|parseValue': n + 2,
             'vf_mem.*': 200, 'SetToZero': 24, 'render.*|getValue|evaluate.*|GetExpressionValue|isEqual|Render': 6, 'Write|write': n + 2, 'EscapeHTMLSpecialChars': 4, 'Hash': 3, 'find': 4,
             'resize|generateHash|expand': 6, 'Count': 4, 'stringToNumber|parseExponent|IntToString|NumberToString': 4, 'Insert|insert': 4, 'PowerOf.*': 3}
 def queries(tier):
@@ -46,7 +46,8 @@ def queries(tier):
     for name, tpl, val, exp in FAMILY:
         n = len(tpl)
         d = {'TPL': json.dumps(tpl), 'VAL': val, 'EXPECT': exp}
-        if tier == 'quick' and name in HEAVY: d['LEAFN'] = 1      # one-unit leaves for the loop templates in the per-change tier (two units: thorough)
+        if name == 'loop_sort': d['CONCRETE_LEAVES'] = 1    # first unit of each leaf concrete (order decided), second unit symbolic
+        if tier == 'quick' and name in HEAVY and name != 'loop_sort': d['LEAFN'] = 1      # one-unit leaves for the loop templates in the per-change tier (two units: thorough)
         qs.append(Query('render/%s' % name, 'C02_render.cpp', 'h_render', d, bounds=B(n), default_unwind=5, default_rec=3,
                         rec_bounds={'~Value': 2, 'render|evaluate|parseExpressions': 4}, timeout=900, mem_gb=14))
     if tier != 'quick':
